@@ -93,7 +93,18 @@ def judge_doc(ctx, eng, d, osets, label, ident):
         for k, v in o.items():
             res.count(f"opt:{k}={v!r}")
         try:
-            t = eng.dumps(copy.deepcopy(d), **o)
+            k = res.counters["pairs_judged"] % 6
+            if k == 0:
+                t = eng.mf.dumps(copy.deepcopy(d), **o)
+                res.count("via:public-dumps")
+            elif k == 3:
+                import io
+                buf = io.StringIO()
+                eng.mf.dump(copy.deepcopy(d), buf, **o)
+                t = buf.getvalue()
+                res.count("via:public-dump")
+            else:
+                t = eng.dumps(copy.deepcopy(d), **o)
         except Exception as ex:
             res.violation("dumps-raises-under-options", case, f"{type(ex).__name__}: {str(ex)[:200]}", "text")
             continue
